@@ -74,6 +74,7 @@ class Agg:
             self.nontrivial.add(st.get("interleaving") or st.get("case_digest") or f"{res['key'][0]}:{res['key'][1]}")
         if st.get("policy"):
             self.policies[st["policy"]] += 1
+        self.extra["threads_unblocked_by_recovery"] += st.get("unblocked", 0)
         self.observed += st.get("observed", 0)
         self.quiescent += st.get("quiescent", 0)
         self.capped += 1 if st.get("capped") else 0
